@@ -3,3 +3,24 @@ chk("C01",
     "Exhaustive enumeration of all thread schedules (within a stated preemption bound) of 2-3 concurrent Get callers plus background builds on the real Failover/FailoverOf code, for every cell of the configuration x entry-state x builder-script table; a monitor inside the builder asserts at most one build per key in flight in every explored state.",
     "Trusted: Go toolchain, the shim packages (delegate to std primitives), vinst source rewriting, the harness builder monitor. Code between two synchronisation operations is executed atomically; >3 threads and >bound preemptions are not explored.",
     "stateless model checking of the implementation (controlled scheduler, preemption-bounded DFS over schedules)", "DESIGN.md §C01")
+
+chk("C07",
+    "Explicit-state breadth-first search over all operation sequences up to the depth bound on the real backends (ShardedMap, SyncMap, ShardedMapOf) with a reference map-with-expiry stepped in lock-step; every return value and, after every transition, Len and a full Walk are compared; states are deduplicated on a canonical (key,value,relative expiry) form.",
+    "Trusted: reference model ref.ExpMap, virtual clock shim, vinst rewriting. Sequences longer than the depth bound and key/value alphabets beyond the listed ones are not explored.",
+    "explicit-state model checking (BFS over operation histories of the implementation vs reference model)", "DESIGN.md §C07")
+chk("C10",
+    "Complete enumeration of the TTL configuration grid (magnitude x sign x config/context level x jitter x rand answer incl. both extremes x backend) under a virtual clock; expiry bounds are checked in exact rational arithmetic and reads are probed 1ns before/after the expiry instant.",
+    "Trusted: virtual clock and rand seams; monotonicity of Trait.TTL in the rand answer (checked on interior grid points) extends the two extremes to every rand value. TTL magnitudes outside the grid are not explored.",
+    "exhaustive enumeration of a finite configuration/environment-answer table on the implementation", "DESIGN.md §C10")
+chk("C11",
+    "Explicit-state BFS over sequences of writes (default/per-call TTL), clock advances, ExpireAll and cleanup cycles (the janitor's own function through a verif-tagged accessor) for finite and Unlimited TimeToLive x DeleteExpiredAfter x 3 backends, compared state-by-state with the reference model's removal rule.",
+    "Trusted: ref.ExpMap.Cleanup as the statement's rule; the janitor goroutine's timing is replaced by explicit cleanup operations at every position.",
+    "explicit-state model checking (BFS over operation histories of the implementation vs reference model)", "DESIGN.md §C11")
+chk("C12",
+    "Complete enumeration of limit x fraction x strategy x EvictionNeeded x backend cells, each with every cache size around and far above the limit and every read history up to the bound (with and without rank ties); two real cleanup cycles per history; amount, order and metric oracles evaluated on every case.",
+    "Trusted: harness rank model (expiry / last served instant / serve count). Heap and Sys limits are only reachable through EvictionNeeded (runtime.ReadMemStats is not seamed).",
+    "exhaustive enumeration of a finite configuration x history table on the implementation", "DESIGN.md §C12")
+chk("C13",
+    "All ordered entry sequences up to the bound over the key-length x value-shape x expiry alphabet, with the dump order forced (shard placement for ShardedMap, every Range permutation for SyncMap through the sync.Map shim), for every backend pairing, 3-hop relays and a 300-entry cache; target Walk/Read compared with the source.",
+    "Trusted: encoding/gob round-trips the chosen value alphabet (verified by the SM->SM cells themselves). Entry sequences longer than the bound are represented only by the 300-entry case.",
+    "exhaustive enumeration of bounded input sequences in every iteration order on the implementation", "DESIGN.md §C13")
